@@ -4,7 +4,9 @@ package main
 // both chains after the re-import, and the Coq / JSON emission.
 
 import (
+	"crypto/sha256"
 	"fmt"
+	"os"
 	"sort"
 	"strings"
 
@@ -179,7 +181,7 @@ func TakeSnap(c *abci.Chain) Snap {
 
 // RunProbes runs the same further blocks and transactions on the original chain (a) and the
 // re-imported chain (b) and reports what each of them answered.
-func RunProbes(a, b *abci.Chain, f Features) []Probe {
+func RunProbes(a, b *abci.Chain, f Features, heightShifted bool) []Probe {
 	var out []Probe
 	both := func(name string, g func(c *abci.Chain) string) {
 		var ra, rb string
@@ -307,6 +309,31 @@ func RunProbes(a, b *abci.Chain, f Features) []Probe {
 		}
 		return strings.Join(xs, ",")
 	})
+	if f.Multistaking {
+		both("block:claim-matured-undelegations", func(c *abci.Chain) string {
+			c.BeginBlock(abci.BlockReq{Dt: 5, Proposer: 0})
+			r1 := txr(c, 1, &mstypes.MsgClaimMaturedUndelegations{Sender: A(c, 1).String()})
+			r2 := txr(c, 2, &mstypes.MsgClaimMaturedUndelegations{Sender: A(c, 2).String()})
+			e := c.EndBlock()
+			return fmt.Sprintf("%s %s end=%q pending=%d", r1, r2, e.Panic, len(c.App.MultiStakingKeeper.GetAllUndelegations(ctxOf(c))))
+		})
+	}
+	both("query:account-balances", func(c *abci.Chain) string {
+		if heightShifted {
+			// block rewards depend on the height through the validator-performance window (votes older
+			// than SnapPeriod blocks expire): not comparable between chains at different heights
+			return "n/a"
+		}
+		var xs []string
+		for i := range c.Accounts {
+			xs = append(xs, c.App.BankKeeper.GetAllBalances(ctxOf(c), A(c, i)).String())
+		}
+		if os.Getenv("C12_DEBUG") != "" {
+			return strings.Join(xs, "|")
+		}
+		h := sha256.Sum256([]byte(strings.Join(xs, "|")))
+		return fmt.Sprintf("%x", h[:8])
+	})
 	both("query:data-registry-keys", func(c *abci.Chain) string {
 		return fmt.Sprint(len(c.App.CustomGovKeeper.AllDataRegistry(ctxOf(c))))
 	})
@@ -319,7 +346,7 @@ func RunProbes(a, b *abci.Chain, f Features) []Probe {
 func c0(c *abci.Chain) *abci.Chain { return c }
 
 func short(s string) string {
-	if len(s) > 160 {
+	if len(s) > 160 && os.Getenv("C12_DEBUG") == "" {
 		return s[:160]
 	}
 	return s
@@ -394,7 +421,29 @@ func Emit(out hx.Out, cases []Case, dist hx.Counter) {
 		for _, m := range c.Export2 {
 			e2 = append(e2, hx.Str(m))
 		}
-		lines = append(lines, fmt.Sprintf("mkCase %s %s %s %s %s %s %s %s", status, hx.B(c.ImportPanic != ""), hx.List(pop), hx.List(diffs), hx.List(e2), hx.List(probes), snapCoq(c.Snap[0]), snapCoq(c.Snap[1])))
+		// divergences that appear only under another restart schedule (a probe that already diverges at
+		// the same-time restart keeps its plain signature)
+		base := map[string]bool{}
+		for _, p := range c.Probes {
+			if p.A != p.B {
+				base[p.Name] = true
+			}
+		}
+		var sched []string
+		for _, sr := range c.Scheduled {
+			if sr.ImportPanic != "" {
+				sched = append(sched, hx.Pair(hx.Str(sr.Schedule.Name), hx.Str("import-panic")))
+			}
+			if !sr.ReplayOK {
+				sched = append(sched, hx.Pair(hx.Str(sr.Schedule.Name), hx.Str("history-replay-not-deterministic")))
+			}
+			for _, p := range sr.Probes {
+				if p.A != p.B && !base[p.Name] {
+					sched = append(sched, hx.Pair(hx.Str(sr.Schedule.Name), hx.Str(p.Name)))
+				}
+			}
+		}
+		lines = append(lines, fmt.Sprintf("mkCase %s %s %s %s %s %s %s %s %s", status, hx.B(c.ImportPanic != ""), hx.List(pop), hx.List(diffs), hx.List(e2), hx.List(probes), hx.List(sched), snapCoq(c.Snap[0]), snapCoq(c.Snap[1])))
 	}
 	out.WriteFile("cases.txt", strings.Join(lines, "\n")+"\n")
 	out.WriteFile("pre.v", "From Coq Require Import ZArith String List.\nImport ListNotations.\nOpen Scope Z_scope.\nFrom Sekai Require Import Base.Prelude Gen.GenesisCoverage Model.Genesis Model.C12Check.\nClose Scope string_scope.\n")
